@@ -136,6 +136,19 @@ DivMulInst ==
      I("divmul:x/=a/b", "E", Bin("E.AssignDivide", Var("xx"), Bin("E.Divide", va, vb))),
      I("divmul:x*=a/b", "E", Bin("E.AssignMultiply", Var("xx"), Bin("E.Divide", va, vb)))}
 
+\* every chain of <= 3 steps through `* (left operand)` and parentheses that ends in a division, and every chain of
+\* <= 2 steps through the left operands of the nine `/=` chain operators and parentheses that ends in a multiplication
+RECURSIVE MulChains(_)
+MulChains(n) == IF n = 0 THEN {Bin("E.Divide", va, vb)}
+                ELSE LET prev == MulChains(n - 1) IN prev \cup {Paren(x) : x \in prev} \cup {Bin("E.Multiply", W(x, 4), vc) : x \in prev}
+ChainOpKinds == {"E.Divide", "E.Add", "E.Subtract", "E.Modulo", "E.BitwiseAnd", "E.BitwiseOr", "E.BitwiseXor", "E.ShiftLeft", "E.ShiftRight"}
+RECURSIVE DivChains(_)
+DivChains(n) == IF n = 0 THEN {Bin("E.Multiply", va, vb)}
+                ELSE LET prev == DivChains(n - 1) IN prev \cup {Paren(x) : x \in prev} \cup {Bin(k, W(x, LeftLevel(k)), vc) : x \in prev, k \in ChainOpKinds}
+DivMulChainInst ==
+    {I("divmul:mulchain", "E", Bin("E.Multiply", W(x, 4), Var("dd"))) : x \in MulChains(3)}
+    \cup {I("divmul:divchain", "E", Bin("E.AssignDivide", Var("xx"), x)) : x \in DivChains(2)}
+
 ExprInstances == BalanceInst \cup AddrZeroInst \cup BoolEqInst \cup ArrayUpdInst \cup IncDecInst \cup RequireInst \cup CmpInst
                  \cup ShiftInst \cup KeccakInst \cup MathInst \cup Erc20Inst \cup DivMulInst
 StmtInstances == CacheLenInst \cup {i \in IncDecInst : i.sort = "S"}
